@@ -14,6 +14,7 @@ import TaffyVerif.Drv.C13
 import TaffyVerif.Drv.C18
 import TaffyVerif.Drv.C15
 import TaffyVerif.Drv.FLEX
+import TaffyVerif.Drv.GRID
 
 def handlers : List (String × Handler) := [
   ("C02", DrvC02.handler),
@@ -36,7 +37,8 @@ def handlers : List (String × Handler) := [
   ("C13", DrvC13.handler),
   ("C18", DrvC18.handler),
   ("C15", DrvC15.handler),
-  ("FLEX", DrvFLEX.handler)
+  ("FLEX", DrvFLEX.handler),
+  ("GRID", DrvGRID.handler)
 ]
 
 partial def loop (h : Handler) (inp : IO.FS.Stream) (out : IO.FS.Stream) (s : h.σ) : IO Unit := do
